@@ -50,7 +50,8 @@ STRS = ["", "a", "ab", "a\nb", '"', "\\", "ä", "0", "-12", "+12", "007"]
 STRS_SMALL = ["", "a", "ab", "a\nb", "\\", "ä"]
 NUMERALS = ["0", "7", "12", "-12", "+12", "007", "-0", "+007", "-007"]
 CODES = [-1, 0, 10, 34, 48, 92, 97, 228, 0x2FFFF, 0x30000]
-BODIES = ["a", "ab", "", "a.b", "\\", "]", "^", "-", "\n", "\t", "ä", '"']
+BODIES = ["a", "ab", "", "a.b", "\\", "]", "^", "-", "\n", "\t", "ä", '"',
+          "\\n"]   # the last one is backslash + n (two characters): the fast path rewrites it
 RANGES = [("a", "b"), ("a", "a"), ("b", "a"), ("\\", "]"), ("\\", "a"),
           ("^", "a"), ("]", "a"), ("-", "a"), ("\t", "\n"), ("a", "ä"),
           ('"', "a"), ("ab", "c"), ("", "a"), ("!", "~")]
@@ -264,7 +265,7 @@ def regex_op_class(spec) -> str:
             return "computed-literal"
         s = a[1]
         c = str_class(s)
-        return "lit-" + c + ("-multichar" if len(s) > 1 and c in ("plain", "numeral", "metachar") else "")
+        return "lit-" + c
     if op == "re.range":
         lo, hi = spec[1], spec[2]
         if not (is_lit(lo) and is_lit(hi)):
@@ -284,36 +285,43 @@ def regex_op_class(spec) -> str:
         return "plain"
     if op.startswith("(_ re.loop") or op.startswith("re.loop-args") or op.startswith("(_ re.^"):
         body = spec[1]
+        if op.startswith("re.loop-args"):
+            return "any-body"
         if op.startswith("(_ re.loop"):
             lo, hi = [int(x) for x in op.rstrip(")").split()[2:4]]
-            pre = "lo-gt-hi-" if lo > hi else ""
-        else:
-            pre = ""
+            if lo > hi:
+                return "lo-gt-hi"
         if body[0] == "str.to_re" and is_lit(body[1]):
             n = len(body[1][1])
-            return pre + ("empty-body" if n == 0 else "singlechar-body" if n == 1 else "multichar-body")
-        return pre + "body-" + op_name(body[0])
+            return "empty-body" if n == 0 else "singlechar-body" if n == 1 else "multichar-body"
+        if body[0] in ("re.*", "re.+", "re.opt") or body[0].startswith("(_ re.loop") or body[0].startswith("(_ re.^"):
+            return "quantified-body"
+        return "body-" + op_name(body[0])
     if op in ("re.all", "re.allchar", "re.none"):
         return "nullary"
     return "of-" + ",".join(op_name(a[0]) if not is_lit(a) else "lit" for a in spec[1:])
 
 
+_SAFE_OP = {"+": "add", "-": "sub", "*": "mul", "^": "pow", "<": "lt", "<=": "le",
+            ">": "gt", ">=": "ge", "=": "eq", "=>": "implies", "str.++": "str.concat",
+            "str.<": "str.lt", "str.<=": "str.le", "re.++": "re.concat", "re.*": "re.star",
+            "re.+": "re.plus", "str.to_int": "str.to.int"}
+
+
 def op_name(op: str) -> str:
+    """operator name as used in signatures (safe in file names; the two
+    spellings of str.to.int are one Z3 operator)"""
     if op.startswith("(_ re.loop"):
         return "re.loop"
     if op.startswith("re.loop-args"):
-        return "re.loop-args"
+        return "re.loop-application-form"
     if op.startswith("(_ re.^"):
-        return "re.^"
-    return op
+        return "re.pow"
+    return _SAFE_OP.get(op, op)
 
 
 def subject_class(s: str) -> str:
-    if s.endswith("\n"):
-        return "subject-trailing-newline"
-    if "\n" in s:
-        return "subject-newline"
-    return ""
+    return "subject-with-newline" if "\n" in s else ""
 
 
 def arg_class(op: str, vals: List[Any]) -> str:
@@ -378,11 +386,9 @@ def arg_class(op: str, vals: List[Any]) -> str:
         return "negative" if ints[0] < 0 else "nonneg"
     if op in ("str.to.int", "str.to_int") and strs:
         s = strs[0]
-        c = "minus-signed" if s.startswith("-") else "plus-signed" if s.startswith("+") else "unsigned"
-        digits = s.lstrip("+-")
-        if len(digits) > 1 and digits.startswith("0"):
-            c += "-zero-padded"
-        return c + "-numeral"
+        if s[:1] in "+-" and s != "":
+            return "signed-numeral"
+        return "unsigned-zero-padded-numeral" if len(s) > 1 and s.startswith("0") else "unsigned-numeral"
     if op in ("abs", "neg", "-", "+", "*", "<", "<=", ">", ">=") and ints and not strs:
         return "negative-arg" if any(i < 0 for i in ints) else "nonneg-args"
     if strs:
@@ -620,6 +626,9 @@ def run_atom(channel: str, spec):
         return "inconclusive", None, None, "watchdog expired"
     finally:
         signal.setitimer(signal.ITIMER_REAL, 0)
+        # ISLa's z3_solve leaves this global Z3 parameter toggled after an
+        # `unknown`; threads in a forked worker are not wanted
+        _z3().set_param("parallel.enable", False)
     if got == "raises":
         return "violation-raises", expected, got, detail
     if expected is None:
@@ -659,7 +668,7 @@ def mismatch(channel: str, spec, kind: Optional[str] = None) -> bool:
 # attribution of a failing atom to a minimal operator application
 # --------------------------------------------------------------------------- #
 
-def candidates_for(term_spec) -> List[Any]:
+def candidates_for(term_spec, n_eq: int = 2, with_le: bool = False) -> List[Any]:
     """atoms  term = c  for candidate values c (Z3's value, a neighbour, a
     fixed constant); the term itself when Boolean"""
     t = build(term_spec)
@@ -677,8 +686,8 @@ def candidates_for(term_spec) -> List[Any]:
         for c in cands:
             if c not in seen:
                 seen.append(c)
-        out = [["=", term_spec, ["i", c]] for c in seen[:3]]
-        if v is not None and v[0] == "i" and letter == "I":
+        out = [["=", term_spec, ["i", c]] for c in seen[:n_eq]]
+        if v is not None and v[0] == "i" and letter == "I" and with_le:
             out.append(["<=", term_spec, ["i", v[1]]])
     elif letter == "S":
         cands = []
@@ -689,7 +698,7 @@ def candidates_for(term_spec) -> List[Any]:
         for c in cands:
             if c not in seen:
                 seen.append(c)
-        out = [["=", term_spec, ["s", c]] for c in seen[:3]]
+        out = [["=", term_spec, ["s", c]] for c in seen[:n_eq]]
     return out
 
 
@@ -734,18 +743,41 @@ def _flatten_value_term(channel: str, t):
 
 def attribute(channel: str, atom, kind: Optional[str] = None) -> Tuple[str, Any]:
     """(operator:class, minimal failing atom) for a failing atom"""
-    # 1. regex membership: smallest (regex subterm, substring of the subject)
+    # 1. regex membership: smallest (regex subterm, substring of the subject or
+    #    piece of the subterm) that fails in the same way
     if atom[0] == "str.in_re" and is_lit(atom[1]):
         subj_tag, subj = atom[1][0], atom[1][1]
+        a_sig = _anchor_rule(channel, atom, kind)
+        if a_sig:
+            return a_sig, atom
         rsubs = [t for t in subterms_postorder(atom[2]) if is_regex_op(t[0])]
         rsubs.sort(key=_regex_size)
         for r in rsubs:
-            for s2 in _substrings(subj):
-                if r == atom[2] and s2 == subj:
-                    continue
+            subjects = _substrings(subj)
+            for piece in regex_pieces(r):
+                for w in (piece, piece + piece):
+                    if w not in subjects and len(w) <= 4:
+                        subjects.append(w)
+            if r == atom[2]:
+                continue
+            for s2 in subjects:
                 cand = ["str.in_re", [subj_tag, s2], r]
                 if mismatch(channel, cand, kind):
-                    return _regex_sig(r, s2), cand
+                    return attribute(channel, cand, kind)   # smallest failing subterm: classify it
+        # second pass: a proper subterm that is mis-evaluated in any way
+        # (e.g. it raises on its own, and silently corrupts the pattern here)
+        for r in (rsubs if kind == "wrong" else []):
+            if r == atom[2]:
+                continue
+            cand = ["str.in_re", [subj_tag, ""], r]
+            mismatch(channel, cand, None)
+            if (_MISMATCH_MEMO.get(channel + "|" + json.dumps(cand)) or "").startswith("raises"):
+                return _regex_sig(r, "") + ":in-context", atom
+        # the whole regex, with the shortest substring of the subject that fails
+        for s2 in _substrings(subj):
+            cand = ["str.in_re", [subj_tag, s2], atom[2]]
+            if s2 != subj and mismatch(channel, cand, kind):
+                return (_anchor_rule(channel, cand, kind) or _regex_sig(atom[2], s2)), cand
         return _regex_sig(atom[2], subj), atom
     # 2. smallest operator application (with evaluated arguments) that fails
     for t in subterms_postorder(atom):
@@ -776,9 +808,23 @@ def attribute(channel: str, atom, kind: Optional[str] = None) -> Tuple[str, Any]
     return "composite:" + op_name(top[0]), atom
 
 
+def _anchor_rule(channel: str, atom, kind: Optional[str]) -> Optional[str]:
+    """the `$` anchor: s = w + newline is accepted exactly because w is a
+    member (ISLa TRUE, Z3 not valid; both agree that w is a member)"""
+    subj_tag, subj = atom[1][0], atom[1][1]
+    if kind != "wrong" or not subj.endswith("\n"):
+        return None
+    st, exp, got, _d = run_atom(channel, atom)
+    chopped = ["str.in_re", [subj_tag, subj[:-1]], atom[2]]
+    st2, exp2, _got2, _d2 = run_atom(channel, chopped)
+    if exp is False and got == "TRUE" and st2 == "ok" and exp2 is True:
+        return "str.in_re:subject-is-member-plus-trailing-newline"
+    return None
+
+
 def _regex_sig(r, subj: str) -> str:
     sig = op_name(r[0]) + ":" + regex_op_class(r)
-    sc = subject_class(subj)
+    sc = subject_class(subj) if r[0] in ("re.all", "re.allchar", "re.comp") else ""
     return sig + (":" + sc if sc else "")
 
 
@@ -804,9 +850,11 @@ def family_i_terms(tier: str) -> List[Any]:
     T: List[Any] = []
     ints = INTS
     # arithmetic
+    few = ints if thorough else [-7, -2, -1, 0, 1, 2, 7]
     for op in ("+", "-", "*", "div", "mod"):
-        for a in ints:
-            for b in ints:
+        dom = ints if op in ("div", "mod") else few
+        for a in dom:
+            for b in dom:
                 T.append([op, I(a), I(b)])
     for a in range(-3, 4):
         for b in range(-2, 4):
@@ -934,6 +982,7 @@ def gen_regex(rng: random.Random, depth: int, leaves: List[Any]):
 
 
 def regex_pieces(r, acc=None) -> List[str]:
+    """literals of the regex and the bound / middle characters of its ranges"""
     if acc is None:
         acc = []
     if r[0] == "s":
@@ -944,37 +993,53 @@ def regex_pieces(r, acc=None) -> List[str]:
         return acc
     if r[0] == "re.range" and is_lit(r[1]) and is_lit(r[2]):
         lo, hi = r[1][1], r[2][1]
+        cs = [lo, hi]
         if len(lo) == 1 and len(hi) == 1 and ord(lo) + 1 < ord(hi):
-            mid = chr((ord(lo) + ord(hi)) // 2)
-            if mid not in acc:
-                acc.append(mid)
+            cs.append(chr((ord(lo) + ord(hi)) // 2))
+        for c in cs:
+            if c not in acc:
+                acc.append(c)
+        return acc
     for a in r[1:]:
         regex_pieces(a, acc)
     return acc
 
 
-def subjects_for(r, rng: random.Random, n: int) -> List[str]:
-    pieces = [p for p in regex_pieces(r)]
-    must = [""] + [p for p in pieces if p][:3]
-    pool: List[str] = []
-    base = pieces + ["a", "b", "\n"]
-    for p in base:
-        for q in [""] + base:
-            for w in (p + q, p + q + p):
-                if len(w) <= 4 and w not in pool:
-                    pool.append(w)
-    for w in ("a\n", "\na", "axb", "ab", "aa", "abab", "\\", "ä", "a\nb", "\\n", "^", "]", "-", '"', "\t", "c"):
-        if w not in pool:
+def subjects_for(r, rng: Optional[random.Random], n: int) -> List[str]:
+    """subjects <= 4 characters: likely members (pieces and their
+    concatenations), members followed by a newline, foreign characters.
+    Deterministic prefix of an ordered pool when rng is None."""
+    pieces = regex_pieces(r)
+    pool: List[str] = [""]
+
+    def add(w: str):
+        if len(w) <= 4 and w not in pool:
             pool.append(w)
-    out = []
-    for w in must:
-        if w not in out and len(w) <= 4:
-            out.append(w)
-    rest = [w for w in pool if w not in out]
-    k = max(0, n - len(out))
-    if len(rest) > k:
-        rest = rng.sample(rest, k)
-    return out + rest
+
+    for p in pieces:
+        add(p)
+    for p in pieces:
+        add(p + "\n")
+    for p in pieces:
+        add(p + p)
+    for w in ("a", "\n", "b", "a\nb", "ab"):
+        add(w)
+    for p in pieces:
+        for q in pieces:
+            add(p + q)
+            add(p + q + p)
+    for p in pieces:
+        add("\n" + p)
+        add(p + p + "\n")
+        add(p + p + p)
+        add(p + "a")
+    for w in ("a\n", "\na", "axb", "aa", "abab", "\\", "ä", "\\n", "^", "]", "-", '"', "\t", "c", "\n\n"):
+        add(w)
+    if rng is None or len(pool) <= n:
+        return pool[:n]
+    head = pool[:max(2, n // 2)]
+    rest = pool[len(head):]
+    return head + rng.sample(rest, min(len(rest), n - len(head)))
 
 
 # --------------------------------------------------------------------------- #
@@ -986,6 +1051,8 @@ def _record(channel: str, atom, family: str) -> Dict[str, Any]:
     rec: Dict[str, Any] = {"ch": channel, "k": channel + " " + show(atom), "st": status, "fam": family}
     trivial = atom[0] == "b"
     rec["nt"] = not trivial
+    if detail and "parsed atom differs" in detail:
+        rec["pd"] = True
     if status == "ok":
         rec["exp"] = expected
         return rec
@@ -1001,6 +1068,8 @@ def _record(channel: str, atom, family: str) -> Dict[str, Any]:
         mstatus, mexp, mgot, mdetail = run_atom(channel, minimal)
         if not mstatus.startswith("violation"):
             minimal, mstatus, mexp, mgot, mdetail = atom, status, expected, got, detail
+        if mstatus == "violation-raises" and mexp is None and mdetail.startswith("AssertionError"):
+            cls = "z3-unknown-verdict"
         rec["sig"] = channel + ":" + cls + (":raises" if mstatus == "violation-raises" else "")
         rec["atom"] = atom
         rec["min"] = minimal
@@ -1009,6 +1078,9 @@ def _record(channel: str, atom, family: str) -> Dict[str, Any]:
                        f"{'raises ' + mdetail if mgot == 'raises' else 'answers ' + str(mgot)}"
                        + (f" {mdetail}" if mgot != "raises" and mdetail else ""))
     return rec
+
+
+THOROUGH = False  # set in run() before the pool forks
 
 
 def work(task) -> List[Dict[str, Any]]:
@@ -1020,7 +1092,7 @@ def work(task) -> List[Dict[str, Any]]:
     out: List[Dict[str, Any]] = []
     try:
         if kind == "term":
-            atoms = [] if excluded(payload) else candidates_for(payload)
+            atoms = [] if excluded(payload) else candidates_for(payload, 3 if THOROUGH else 2, THOROUGH)
         elif kind == "atom":
             atoms = [] if excluded(payload) else [payload]
         else:  # regex: payload = (regex spec, subjects)
@@ -1029,8 +1101,10 @@ def work(task) -> List[Dict[str, Any]]:
     except Exception as ex:  # building failed: Z3 rejects the term
         return [{"ch": "-", "k": "build " + show(payload if kind != "regex" else payload[0]), "st": "unbuildable",
                  "detail": _exc_text(ex), "fam": family, "nt": False}]
-    for atom in atoms:
+    for n, atom in enumerate(atoms):
         for ch in channels:
+            if ch != "is_valid" and kind == "term" and n > 0 and not THOROUGH:
+                continue  # quick tier: the other channels see the first atom of a term
             a = atom
             if ch in ("evaluate", "substitute"):
                 m = mark_var(atom)
@@ -1085,27 +1159,45 @@ def make_tasks(tier: str, seed: int) -> List[Any]:
     for t in family_i_terms(tier):
         tasks.append(("term", t, all_ch, "i-operators"))
     # (i-b) random compositions
-    n_comp = 30000 if thorough else 1200
+    n_comp = 30000 if thorough else 1000
     for k in range(n_comp):
         atom = gen_term(rng, "B", rng.choice([2, 2, 3]))
         tasks.append(("atom", atom, all_ch if k % 4 == 0 else ("is_valid",), "i-compositions"))
-    # (ii) regexes
+    # (ii) regexes: a deterministic part (all leaves, every unary operator over
+    # every leaf, every binary operator over representative leaves, fixed
+    # subjects) and a seeded random part of depth 2 and 3
     leaves = regex_leaves()
-    regs: List[Any] = list(leaves)
+    rep_leaves = [["str.to_re", S("a")], ["str.to_re", S("ab")], ["str.to_re", S("")],
+                  ["str.to_re", S("\n")], ["re.range", S("a"), S("b")],
+                  ["re.range", S("\\"), S("]")], ["re.all"], ["re.allchar"], ["re.none"]]
+    det: List[Any] = list(leaves)
     for u in UNARY_RE:
         for l in leaves:
-            regs.append([u, l])
-    d1_bin = [[b, x, y] for b in BINARY_RE for x in leaves for y in leaves]
-    regs += d1_bin if thorough else rng.sample(d1_bin, 260)
-    for _ in range(6000 if thorough else 330):
-        regs.append(gen_regex(rng, 2, leaves))
-    for _ in range(5000 if thorough else 260):
-        regs.append(gen_regex(rng, 3, leaves))
-    n_subj = 18 if thorough else 7
-    for k, r in enumerate(regs):
-        subs = subjects_for(r, rng, n_subj)
-        chans = all_ch if k % (8 if thorough else 4) == 0 else ("is_valid",)
+            det.append([u, l])
+    for b in BINARY_RE:
+        for x in (leaves if thorough else rep_leaves):
+            for y in (leaves if thorough else rep_leaves):
+                det.append([b, x, y])
+    a_, ab_ = ["str.to_re", S("a")], ["str.to_re", S("ab")]
+    bodies2 = [["re.++", a_, ["str.to_re", S("b")]], ["re.union", a_, ab_], ["re.*", a_], ["re.opt", a_],
+               ["(_ re.loop 1 2)", a_], ["re.comp", a_], ["re.inter", a_, ab_],
+               ["re.++", ["re.range", S("a"), S("b")], ["re.all"]]]
+    det2 = [[u, b] for u in UNARY_RE for b in bodies2]
+    for r in det2:
+        tasks.append(("regex", (r, subjects_for(r, None, 14 if thorough else 9)), all_ch, "ii-regex"))
+    for k, r in enumerate(det):
+        subs = subjects_for(r, None, 14 if thorough else 8)
+        chans = all_ch if (k < len(leaves) * (1 + len(UNARY_RE)) or k % (2 if thorough else 3) == 0) else ("is_valid",)
         tasks.append(("regex", (r, subs), chans, "ii-regex"))
+    rnd: List[Any] = []
+    for _ in range(6000 if thorough else 220):
+        rnd.append(gen_regex(rng, 2, leaves))
+    for _ in range(6000 if thorough else 180):
+        rnd.append(gen_regex(rng, 3, leaves))
+    for k, r in enumerate(rnd):
+        subs = subjects_for(r, rng, 14 if thorough else 7)
+        chans = all_ch if k % (8 if thorough else 4) == 0 else ("is_valid",)
+        tasks.append(("regex", (r, subs), chans, "ii-regex-random"))
     return tasks
 
 
@@ -1165,10 +1257,14 @@ def run(rep, tier, seed):
     rep.exhaustive = False
     _sanity(rep)
 
+    global THOROUGH
+    THOROUGH = tier == "thorough"
     tasks = make_tasks(tier, seed)
     chunk = 24
-    slow = [t for t in tasks if t[3].endswith("replace_re")]
-    fast = [t for t in tasks if not t[3].endswith("replace_re")]
+    def is_slow(t):  # Z3 answers unknown: ISLa retries 20 times
+        return t[3].endswith("replace_re") or (t[0] == "term" and t[1] == ["^", I(0), I(0)])
+    slow = [t for t in tasks if is_slow(t)]
+    fast = [t for t in tasks if not is_slow(t)]
     chunks = [[t] for t in slow] + [fast[i:i + chunk] for i in range(0, len(fast), chunk)]
     counters: Dict[str, Dict[str, int]] = {}
     samples = 0
@@ -1189,6 +1285,8 @@ def run(rep, tier, seed):
                 c = counters.setdefault(fam, {})
                 c[rec["st"]] = c.get(rec["st"], 0) + 1
                 st = rec["st"]
+                if rec.get("pd"):
+                    c["parsed-atom-differs-from-intended"] = c.get("parsed-atom-differs-from-intended", 0) + 1
                 if st in ("inexpressible", "unbuildable"):
                     continue
                 sample = None
@@ -1208,7 +1306,7 @@ def run(rep, tier, seed):
     for fam, c in sorted(counters.items()):
         rep.section(fam, **c)
     # anti-vacuity
-    for fam in ("i-operators", "i-operators-replace_re", "i-compositions", "ii-regex"):
+    for fam in ("i-operators", "i-operators-replace_re", "i-compositions", "ii-regex", "ii-regex-random"):
         for ch in ("is_valid", "evaluate", "substitute"):
             c = counters.get(fam + "/" + ch, {})
             done = sum(v for k, v in c.items() if k in ("ok", "violation-wrong", "violation-raises")
